@@ -416,7 +416,7 @@ func runSrv(t *testing.T, sc *SrvScenario, keep bool, res *core.Result, hooks *s
 				} else {
 					plan.DelayBefore = time.Duration(o.DelayMs) * time.Millisecond
 				}
-				m.PushPlan(plan)
+				m.PlanNext(plan, m.Context)
 				res.Config("reload:" + rec.Label)
 				okBefore := rst.get("DNS_db.reload")
 				toBefore, vkBefore := rst.get("DNS_db.ErrReloadTimeout"), rst.get("DNS_db.ErrValidationKeyNotFound")
